@@ -34,6 +34,14 @@
 //!   each access is attributed to the opcode that was executing) and end to end through
 //!   `Interpreter::transact` (init, input-contract existence checks, run, finalisation).
 //!   Worlds differ in prior balances and coin inputs (so transfers succeed / fail).
+//!   EXECUTION CONTEXTS (each program, both ways, in all three): a fresh interpreter
+//!   instance; the SAME instance after `Interpreter::transact` of a warm-up transaction
+//!   of the same shape whose contract inputs are A, B *and C* with script `ret 1`; the
+//!   same with a warm-up script that calls C (C's context was active, C's body wrote
+//!   C's state). The program's own transaction lists A and B only, and the oracle is
+//!   unchanged: the inputs are those of the transaction being executed, not of
+//!   anything the instance ran before. Oracle (3) compares with the state right after
+//!   the warm-up.
 //!
 //! SPACE B (predicates). For each of the 24 contract-state opcodes (BAL BURN CALL CCP
 //!   CROO CSIZ LDC(mode 0) MINT SMO SCWQ SRW SRWQ SWW SWWQ TR TRO SCLR SRDD SRDI SWRD
@@ -110,7 +118,10 @@ use fuel_storage::{
     StorageWrite,
 };
 use fuel_tx::{
-    field::Inputs,
+    field::{
+        Inputs,
+        Outputs,
+    },
     ConsensusParameters,
     Contract,
     Finalizable,
@@ -136,6 +147,7 @@ use fuel_vm::{
         CheckPredicates,
         EstimatePredicates,
         IntoChecked,
+        Ready,
     },
     error::{
         InterpreterError,
@@ -842,11 +854,47 @@ fn body(other: u8) -> Vec<Instruction> {
     code
 }
 
+/// Execution contexts of the program under test: a fresh interpreter instance, or the
+/// SAME instance after it executed a warm-up transaction whose contract inputs are
+/// A, B *and C* (a trivial `ret` script / a script that calls C, so that C's context
+/// was active and C's state was written — legitimately, C being an input there).
+const CONTEXTS: [&str; 3] = ["fresh", "reused:ret[A,B,C]", "reused:call-C[A,B,C]"];
+
 struct Env {
     name: &'static str,
     world: World,
     inputs: BTreeSet<ContractId>,
-    initial: Snapshot,
+    /// per context: the warm-up transaction (None = fresh instance)
+    warm: Vec<Option<Ready<Script>>>,
+    /// per context: state of the contracts outside the inputs when the program starts
+    initial: Vec<Snapshot>,
+}
+
+/// The world's transaction shape with C added to the contract inputs / outputs.
+fn warm_tx(world: &World, body: &[Instruction]) -> Ready<Script> {
+    let mut tx = world.tx(world.script_bytes(body), GAS);
+    let idx = tx.inputs().len() as u16;
+    tx.inputs_mut().push(Input::contract(
+        UtxoId::new(Bytes32::new([0x1c; 32]), 0),
+        Bytes32::zeroed(),
+        Bytes32::zeroed(),
+        TxPointer::default(),
+        C,
+    ));
+    tx.outputs_mut()
+        .push(Output::contract(idx, Bytes32::zeroed(), Bytes32::zeroed()));
+    let listed: BTreeSet<ContractId> = tx
+        .inputs()
+        .iter()
+        .filter_map(|i| match i {
+            Input::Contract(c) => Some(c.contract_id),
+            _ => None,
+        })
+        .collect();
+    assert!(listed.contains(&A) && listed.contains(&B) && listed.contains(&C));
+    tx.into_checked_basic(BlockHeight::new(0), &world.params)
+        .expect("warm-up tx must pass basic checks")
+        .test_into_ready()
 }
 
 fn make_env(name: &'static str) -> Env {
@@ -896,13 +944,27 @@ fn make_env(name: &'static str) -> Env {
     assert!(!inputs.contains(&C) && !inputs.contains(&D));
     assert!(world.storage.storage_contract_exists(&C).unwrap());
     assert!(!world.storage.storage_contract_exists(&D).unwrap());
-    let initial = snapshot(&world.storage, &inputs);
-    Env {
+    let warm = vec![
+        None,
+        Some(warm_tx(&world, &[op::ret(RegId::ONE)])),
+        Some(warm_tx(&world, &[call0(r::CALL_C), op::ret(RegId::ONE)])),
+    ];
+    let mut env = Env {
         name,
         world,
         inputs,
-        initial,
+        warm,
+        initial: vec![],
+    };
+    for c in 0..CONTEXTS.len() {
+        let vm = vm_in_context(&env, c);
+        let snap = snapshot(&vm.as_ref().inner, &env.inputs);
+        env.initial.push(snap);
     }
+    // the call-C warm-up really ran C (C's body wrote a slot of C)
+    assert_eq!(env.initial[0], env.initial[1]);
+    assert!(env.initial[2].state.len() > env.initial[0].state.len());
+    env
 }
 
 fn class_of(id: &ContractId) -> &'static str {
@@ -1229,29 +1291,30 @@ fn judge_active(env: &Env, vm: &RVm, after: &str, out: &mut ProgOut) {
 }
 
 /// Oracle (3).
-fn judge_final(env: &Env, st: &MemoryStorage, mode: &str, out: &mut ProgOut) {
+fn judge_final(env: &Env, c: usize, st: &MemoryStorage, mode: &str, out: &mut ProgOut) {
     let now = snapshot(st, &env.inputs);
-    if now.code != env.initial.code {
+    let initial = &env.initial[c];
+    if now.code != initial.code {
         out.findings.push((
             "C30:final-state:ContractsRawCode".into(),
             format!("{mode}: code of a contract outside the inputs changed"),
         ));
     }
-    if now.state != env.initial.state {
+    if now.state != initial.state {
         out.findings.push((
             "C30:final-state:ContractsState".into(),
             format!(
                 "{mode}: state slots of contracts outside the inputs changed: {} -> {} entries",
-                env.initial.state.len(),
+                initial.state.len(),
                 now.state.len()
             ),
         ));
     }
-    if now.balances != env.initial.balances {
+    if now.balances != initial.balances {
         let diff: Vec<String> = now
             .balances
             .iter()
-            .zip(env.initial.balances.iter())
+            .zip(initial.balances.iter())
             .filter(|(n, o)| n != o)
             .map(|(n, o)| format!("{}: {:?} -> {:?}", short(&n.0), o.2, n.2))
             .collect();
@@ -1270,6 +1333,22 @@ fn fresh_vm(env: &Env) -> RVm {
     )
 }
 
+/// An interpreter instance in execution context `c`: fresh, or after the warm-up
+/// transaction of that context ran on it through `Interpreter::transact` (the log of
+/// the warm-up is discarded: C is an input there).
+fn vm_in_context(env: &Env, c: usize) -> RVm {
+    let mut vm = fresh_vm(env);
+    if let Some(ready) = &env.warm[c] {
+        let r = guard::catch_any(|| vm.transact(ready.clone()).map(|st| *st.state()));
+        match r {
+            Ok(Ok(fuel_vm::state::ProgramState::Return(1))) => {}
+            other => panic!("warm-up transaction {} did not return 1: {other:?}", CONTEXTS[c]),
+        }
+        vm.as_ref().drain();
+    }
+    vm
+}
+
 fn access_json(a: &Access) -> Value {
     json!(format!(
         "{:?} {} {} via {}",
@@ -1281,7 +1360,7 @@ fn access_json(a: &Access) -> Value {
 }
 
 /// Run one program both ways through the oracle.
-fn run_program(env: &Env, ins: &[Instruction], want_trace: bool) -> ProgOut {
+fn run_program(env: &Env, c: usize, ins: &[Instruction], want_trace: bool) -> ProgOut {
     let mut out = ProgOut::default();
     let mut all: Vec<Instruction> = ins.to_vec();
     all.push(op::ret(RegId::ONE));
@@ -1290,7 +1369,7 @@ fn run_program(env: &Env, ins: &[Instruction], want_trace: bool) -> ProgOut {
     let mut sig: Vec<(String, usize, Vec<Access>, String)> = vec![];
 
     // ---- step by step
-    let mut vm = fresh_vm(env);
+    let mut vm = vm_in_context(env, c);
     let init = guard::catch_any(|| vm.init_script(env.world.ready(script.clone(), GAS)));
     match init {
         Ok(Ok(())) => {}
@@ -1362,12 +1441,12 @@ fn run_program(env: &Env, ins: &[Instruction], want_trace: bool) -> ProgOut {
     if out.end.is_empty() {
         out.end = last.label();
     }
-    judge_final(env, &vm.as_ref().inner, "step-wise", &mut out);
+    judge_final(env, c, &vm.as_ref().inner, "step-wise", &mut out);
     out.fp = hash64(&(env.name, &sig));
     drop(vm);
 
     // ---- end to end
-    let mut vm = fresh_vm(env);
+    let mut vm = vm_in_context(env, c);
     let ready = env.world.ready(script, GAS);
     let r = guard::catch_any(|| vm.transact(ready).map(|st| *st.state()));
     let tlabel = match &r {
@@ -1402,7 +1481,7 @@ fn run_program(env: &Env, ins: &[Instruction], want_trace: bool) -> ProgOut {
             ));
         }
     }
-    judge_final(env, &vm.as_ref().inner, "transact", &mut out);
+    judge_final(env, c, &vm.as_ref().inner, "transact", &mut out);
     out
 }
 
@@ -1809,10 +1888,11 @@ struct Acc {
     samples: Vec<(u64, Vec<u64>)>,
 }
 
-fn case_json(env: &Env, alpha: &[Letter], seq: &[u64]) -> Value {
+fn case_json(env: &Env, c: usize, alpha: &[Letter], seq: &[u64]) -> Value {
     json!({
         "kind": "program",
         "world": env.name,
+        "context": CONTEXTS[c],
         "seq": seq,
         "letters": progkit::program_names(alpha, seq),
     })
@@ -1856,30 +1936,44 @@ fn explore_programs(ctx: &Ctx) {
                 |i, acc: &mut Acc| {
                     let idx = base + i;
                     let (seq, ins) = progkit::program_at(&alpha, k, idx);
-                    let out = run_program(env, &ins, false);
                     acc.n += 1;
-                    acc.steps += out.steps;
-                    acc.accesses += out.accesses;
-                    for (k2, v) in &out.hist {
-                        *acc.hist.entry(k2.clone()).or_default() += v;
-                    }
-                    *acc.hist.entry(format!("end:{}", out.end)).or_default() += 1;
-                    if out.nontrivial {
-                        acc.nontrivial += 1;
-                        acc.fps.insert(out.fp);
-                    }
                     let mut seen = BTreeSet::new();
-                    for (key, what) in out.findings {
-                        if !seen.insert(key.clone()) {
-                            continue
+                    for c in 0..CONTEXTS.len() {
+                        let out = run_program(env, c, &ins, false);
+                        acc.steps += out.steps;
+                        acc.accesses += out.accesses;
+                        for (k2, v) in &out.hist {
+                            *acc.hist.entry(k2.clone()).or_default() += v;
                         }
-                        *acc.viol_counts.entry(key.clone()).or_default() += 1;
-                        acc.viols
-                            .entry(key)
-                            .or_insert_with(|| (what, case_json(env, &alpha, &seq)));
-                    }
-                    if seq.len() >= 2 && out.accesses >= 6 && acc.samples.len() < 2 {
-                        acc.samples.push((idx, seq));
+                        *acc
+                            .hist
+                            .entry(format!("end:{}:{}", CONTEXTS[c], out.end))
+                            .or_default() += 1;
+                        if out.nontrivial {
+                            if c == 0 {
+                                acc.nontrivial += 1;
+                            }
+                            acc.fps.insert(out.fp);
+                        }
+                        for (key, what) in out.findings {
+                            if !seen.insert(key.clone()) {
+                                continue
+                            }
+                            *acc.viol_counts.entry(key.clone()).or_default() += 1;
+                            acc.viols.entry(key).or_insert_with(|| {
+                                (
+                                    format!("[{}] {what}", CONTEXTS[c]),
+                                    case_json(env, c, &alpha, &seq),
+                                )
+                            });
+                        }
+                        if c == 0
+                            && seq.len() >= 2
+                            && out.accesses >= 6
+                            && acc.samples.len() < 2
+                        {
+                            acc.samples.push((idx, seq.clone()));
+                        }
                     }
                 },
                 |a| {
@@ -1906,7 +2000,7 @@ fn explore_programs(ctx: &Ctx) {
             start += n_len;
             done_len = len as i64;
         }
-        ctx.evals(acc_total.n * 2);
+        ctx.evals(acc_total.n * 2 * CONTEXTS.len() as u64);
         ctx.fps_merge(acc_total.fps.iter().copied());
         for (k2, v) in &acc_total.hist {
             if k2.starts_with("attempt:CALL:") && !k2.contains(":listed:") {
@@ -1937,14 +2031,15 @@ fn explore_programs(ctx: &Ctx) {
             }
             p
         };
-        for (_, seq) in picks {
+        for (n, (_, seq)) in picks.into_iter().enumerate() {
             let ins: Vec<Instruction> = seq
                 .iter()
                 .flat_map(|i| alpha[*i as usize].ins.iter().copied())
                 .collect();
-            let out = run_program(env, &ins, true);
+            let c = n % CONTEXTS.len();
+            let out = run_program(env, c, &ins, true);
             ctx.sample(json!({
-                "kind": "program", "world": env.name,
+                "kind": "program", "world": env.name, "context": CONTEXTS[c],
                 "letters": progkit::program_names(&alpha, seq),
                 "steps_after_prelude": out.trace,
                 "end": out.end,
@@ -1954,6 +2049,8 @@ fn explore_programs(ctx: &Ctx) {
             env.name.to_string(),
             json!({
                 "programs": acc_total.n,
+                "contexts_per_program": CONTEXTS,
+                "runs": acc_total.n * 2 * CONTEXTS.len() as u64,
                 "of_total": total,
                 "completed_length": done_len,
                 "nontrivial_programs": acc_total.nontrivial,
@@ -1982,7 +2079,9 @@ fn explore_programs(ctx: &Ctx) {
 
 fn explore(ctx: &Ctx) {
     ctx.rule(
-        "A: for each world all sequences of length <= k over A30, shortest first, each run step-wise and through \
+        "A: for each world all sequences of length <= k over A30, shortest first, each in 3 execution contexts (fresh \
+         interpreter instance; same instance after a warm-up transaction `ret` with contract inputs A,B,C; same instance \
+         after a warm-up transaction that calls C with inputs A,B,C), each run step-wise and through \
          Interpreter::transact over the recording storage; B: 24 contract-state opcodes x 2 positions x {verify, estimate} \
          as coin predicates through Checked::check_predicates / estimate_predicates, plus 43 direct contract-table calls on \
          PredicateStorage. Non-trivial program = at least one contract-table access logged or one contract-naming \
@@ -2029,7 +2128,14 @@ fn replay(case: &Value, ctx: &Ctx) {
                 .flat_map(|i| alpha[*i as usize].ins.iter().copied())
                 .collect();
             let trace = std::env::var("C30_TRACE").is_ok();
-            let out = run_program(&env, &ins, trace);
+            let c = match case["context"].as_str() {
+                None => 0, // replay files written before contexts existed
+                Some(name) => CONTEXTS
+                    .iter()
+                    .position(|x| *x == name)
+                    .unwrap_or_else(|| panic!("unknown context {name}")),
+            };
+            let out = run_program(&env, c, &ins, trace);
             if trace {
                 for t in &out.trace {
                     eprintln!("  {t}");
